@@ -28,6 +28,12 @@ Definition cline_ok (p : cline) : Prop := nlfree (fst p) /\ is_nl (snd p) = true
 Definition done_ok (done : list cline) : Prop := Forall cline_ok done.
 Definition flat (done : list cline) : list rune_w := concat (map (fun p => fst p ++ [snd p]) done).
 
+Lemma filter_none {A} (f : A -> bool) l : (forall x, In x l -> f x = false) -> filter f l = [].
+Proof.
+  induction l as [|a l IH]; intros H; [reflexivity|]. simpl. rewrite (H a) by now left.
+  apply IH. intros x Hx. apply H. now right.
+Qed.
+
 Lemma sumw_app a b : sumw (a ++ b) = sumw a + sumw b.
 Proof. induction a as [|r a IH]; simpl; [reflexivity|]. rewrite IH. lia. Qed.
 
@@ -359,6 +365,61 @@ Proof using Hdec.
   - now rewrite Z.sub_0_r.
 Qed.
 
+(* newlines: a rune is '\n' iff its bytes contain the byte 10 (then it is that byte) *)
+Definition nlb (l : str) : nat := length (filter (fun b => b =? 10) l).
+Definition nlr (rs : list rune_w) : nat := length (filter is_nl rs).
+
+Lemma nlb_app a b : nlb (a ++ b) = (nlb a + nlb b)%nat.
+Proof. unfold nlb. now rewrite filter_app, app_length. Qed.
+
+Lemma nlr_app a b : nlr (a ++ b) = (nlr a + nlr b)%nat.
+Proof. unfold nlr. now rewrite filter_app, app_length. Qed.
+
+Lemma nlb_rune s c w : s <> [] -> dec s = (c, w) ->
+  nlb (firstn (Z.to_nat w) s) = if c =? 10 then 1%nat else 0%nat.
+Proof using Hdec.
+  intros Hne Hd. destruct s as [|b s']; [congruence|].
+  destruct (Z_le_dec 0 b) as [H0|H0]; [destruct (Z_lt_dec b 128) as [H1|H1]|].
+  - rewrite (dec_ascii _ Hdec b s') in Hd by lia. inversion Hd; subst c w.
+    change (Z.to_nat 1) with 1%nat. cbn [firstn]. unfold nlb. cbn [filter]. now destruct (b =? 10).
+  - destruct (dec_high _ Hdec b s' c w) as (Hr & Hh); [unfold high; lia|assumption|].
+    destruct (Z.eqb_spec c 10); [lia|]. unfold nlb.
+    rewrite filter_none; [reflexivity|]. intros x Hx. rewrite Forall_forall in Hh. specialize (Hh x Hx).
+    unfold high in Hh. lia.
+  - destruct (dec_high _ Hdec b s' c w) as (Hr & Hh); [unfold high; lia|assumption|].
+    destruct (Z.eqb_spec c 10); [lia|]. unfold nlb.
+    rewrite filter_none; [reflexivity|]. intros x Hx. rewrite Forall_forall in Hh. specialize (Hh x Hx).
+    unfold high in Hh. lia.
+Qed.
+
+(* the bytes of a prefix of the runes contain as many bytes 10 as the prefix has newline runes *)
+Lemma nlb_prefix : forall pre s post, runes_with dec s = pre ++ post ->
+  nlb (firstn (Z.to_nat (sumw pre)) s) = nlr pre.
+Proof using Hdec.
+  induction pre as [|r pre IH]; intros s post Hr; [reflexivity|].
+  destruct s as [|b s'] eqn:Hs; [discriminate|]. rewrite <- Hs in *.
+  assert (Hne : s <> []) by (rewrite Hs; discriminate).
+  destruct (dec s) as [c w] eqn:Hd. pose proof (dec_width _ Hdec _ _ _ Hne Hd) as Hw.
+  rewrite (runes_unfold s c w Hne Hd) in Hr. cbn [app] in Hr. inversion Hr as [[Hr0 Hr1]]. subst r.
+  assert (Hp : 0 <= sumw pre).
+  { pose proof (runes_width_pos (skipn (Z.to_nat w) s) 0%nat) as Hpos. fold (runes_with dec (skipn (Z.to_nat w) s)) in Hpos.
+    rewrite Hr1 in Hpos. apply Forall_app in Hpos. destruct Hpos as (Hpos & _). clear -Hpos. induction Hpos; simpl; lia. }
+  cbn [sumw fold_right snd]. fold (sumw pre).
+  replace (Z.to_nat (w + sumw pre)) with (Z.to_nat w + Z.to_nat (sumw pre))%nat by lia.
+  rewrite firstn_add, nlb_app, (IH _ _ Hr1), (nlb_rune s c w Hne Hd).
+  unfold nlr. cbn [filter]. replace (is_nl (c, w)) with (c =? 10) by reflexivity. destruct (c =? 10); reflexivity.
+Qed.
+
+Lemma nlr_nlfree l : nlfree l -> nlr l = 0%nat.
+Proof. intros H. unfold nlr. rewrite filter_none; [reflexivity|]. intros x Hx. unfold nlfree in H. rewrite Forall_forall in H. now apply H. Qed.
+
+Lemma nlr_flat done : done_ok done -> nlr (flat done) = length done.
+Proof.
+  intros Hd. induction Hd as [|p done (Hp1 & Hp2 & _) Hd IH]; [reflexivity|].
+  unfold flat in *. cbn [map concat]. rewrite !nlr_app, IH, (nlr_nlfree _ Hp1).
+  unfold nlr. cbn [filter]. rewrite Hp2. simpl. lia.
+Qed.
+
 (* ------------------------------------------------------------------ Part 3: the theorems *)
 
 (* for EVERY offset -- inside the text or not, at a rune or not -- the rendered position exists *)
@@ -374,6 +435,16 @@ Proof using Hdec.
   intros H. unfold offset_of_with, location_with. apply rlocation_roundtrip.
   - apply runes_newline_width.
   - now apply boundary_in.
+Qed.
+
+(* the rendered line, in bytes: one more than the newline bytes in front of the offset *)
+Theorem location_line_with t off : rune_boundary_with dec t off = true ->
+  fst (location_with dec t off) = 1 + Z.of_nat (nlb (firstn (Z.to_nat off) t)).
+Proof using Hdec.
+  intros H. apply boundary_in in H. unfold location_with.
+  destruct (rlocation_prefix (runes_with dec t) off (runes_newline_width t 0%nat)) as (done & cur & post & Heq & Hd & Hc & Hl & Hb).
+  rewrite Hl. cbn [fst]. rewrite <- (Hb H). rewrite app_assoc in Heq.
+  rewrite (nlb_prefix _ _ _ Heq), nlr_app, (nlr_flat _ Hd), (nlr_nlfree _ Hc). lia.
 Qed.
 
 (* anywhere else Go's loop never meets pos == End and returns the position of the end *)
@@ -394,6 +465,9 @@ Proof. exact (location_inside_with Utf8M.decode utf8_decoder_ok t off). Qed.
 
 Lemma location_roundtrip t off : rune_boundary_b t off = true -> offset_of t (location t off) = off.
 Proof. exact (location_roundtrip_with Utf8M.decode utf8_decoder_ok t off). Qed.
+
+Lemma location_line t off : rune_boundary_b t off = true -> fst (location t off) = byte_line t off.
+Proof. exact (location_line_with Utf8M.decode utf8_decoder_ok t off). Qed.
 
 Lemma location_off_rune t off : rune_boundary_b t off = false -> location t off = location t (zlen t).
 Proof. exact (location_off_rune_with Utf8M.decode utf8_decoder_ok t off). Qed.
